@@ -74,17 +74,35 @@ def strip_comments(text):
     return text
 
 
-def forbidden_tokens():
+def import_closure(modules):
+    """Files (relative to lean/) reachable by `import IsoDT...` from the given modules + Main."""
+    todo = [m.replace(".", "/") + ".lean" for m in modules] + ["Main.lean"]
+    seen = []
+    while todo:
+        rel = todo.pop()
+        if rel in seen:
+            continue
+        path = os.path.join(common.LEAN_DIR, rel)
+        if not os.path.exists(path):
+            continue
+        seen.append(rel)
+        with open(path) as handle:
+            for mt in re.finditer(r"^import\s+(IsoDT[\w.]*)", handle.read(), flags=re.M):
+                todo.append(mt.group(1).replace(".", "/") + ".lean")
+    return seen
+
+
+def forbidden_tokens(modules):
     hits = []
-    for path in glob.glob(os.path.join(common.LEAN_DIR, "IsoDT", "**", "*.lean"),
-                          recursive=True) + [os.path.join(common.LEAN_DIR, "Main.lean")]:
+    for rel in import_closure(modules):
+        path = os.path.join(common.LEAN_DIR, rel)
         with open(path) as handle:
             text = strip_comments(handle.read())
-        if path.endswith("Main.lean"):
+        if rel == "Main.lean":
             text = text.replace("partial def loop", "def loop")
         for pat in FORBIDDEN:
             for mt in re.finditer(pat, text, flags=re.M):
-                hits.append("%s: %s" % (os.path.relpath(path, common.LEAN_DIR), mt.group(0).strip()))
+                hits.append("%s: %s" % (rel, mt.group(0).strip()))
     return hits
 
 
@@ -304,7 +322,7 @@ def main(argv):
             bad = [a for a in axs if a not in ALLOWED_AXIOMS]
             if bad:
                 broken.append("audit: theorem %s depends on %s" % (name, bad))
-    hits = forbidden_tokens()
+    hits = forbidden_tokens(mod.LEAN_MODULES)
     for hit in hits:
         broken.append("audit: forbidden token " + hit)
     required = getattr(mod, "REQUIRED_THEOREMS", [])
